@@ -118,16 +118,18 @@ class History:
         if k in ('aes', 'generic', 'des3'):
             private = rnd.random() < .5; tmpl = common(tag, private) + [('CKA_SENSITIVE', False), ('CKA_EXTRACTABLE', True)] + ([('CKA_VALUE_LEN', rnd.choice((16, 32)) if k == 'aes' else rnd.randrange(1, 200))] if k != 'des3' else [])
             mech = {'aes': 'CKM_AES_KEY_GEN', 'generic': 'CKM_GENERIC_SECRET_KEY_GEN', 'des3': 'CKM_DES3_KEY_GEN'}[k]
-            r = s.x().call('C_GenerateKey', s=s.S, mech=s.x().M(mech), tmpl=s.T(tmpl)); s.part.count('calls_generate')
+            sess = s.S2 if (not token and rnd.random() < .6) else s.S
+            r = s.x().call('C_GenerateKey', s=sess, mech=s.x().M(mech), tmpl=s.T(tmpl)); s.part.count('calls_generate')
             if r['rv'] != 0: s.part.count('refused_generate'); return
-            o = Obj(tag, 'gen-' + k, token, private, 'C_GenerateKey', owner=s.S); s.M[tag] = o; s.adopt(o, r['h'], tmpl, 'C_GenerateKey')
+            o = Obj(tag, 'gen-' + k, token, private, 'C_GenerateKey', owner=sess); s.M[tag] = o; s.adopt(o, r['h'], tmpl, 'C_GenerateKey')
         else:
             tag2 = s.newtag(); mech, pubx = {'ec': ('CKM_EC_KEY_PAIR_GEN', [('CKA_EC_PARAMS', rnd.choice((persist.P256, persist.P384)))]), 'ed': ('CKM_EC_EDWARDS_KEY_PAIR_GEN', [('CKA_EC_PARAMS', persist.ED25519)]),
                                             'rsa': ('CKM_RSA_PKCS_KEY_PAIR_GEN', [('CKA_MODULUS_BITS', 1024), ('CKA_PUBLIC_EXPONENT', b'\x01\x00\x01')])}[k]
             pubpriv = rnd.random() < .3; pub = common(tag, pubpriv) + pubx; priv = common(tag2, True) + [('CKA_SENSITIVE', False), ('CKA_EXTRACTABLE', True)]
-            r = s.x().call('C_GenerateKeyPair', s=s.S, mech=s.x().M(mech), pub=s.T(pub), priv=s.T(priv)); s.part.count('calls_generate')
+            sess = s.S2 if (not token and rnd.random() < .6) else s.S
+            r = s.x().call('C_GenerateKeyPair', s=sess, mech=s.x().M(mech), pub=s.T(pub), priv=s.T(priv)); s.part.count('calls_generate')
             if r['rv'] != 0: s.part.count('refused_generate'); return
-            o1 = Obj(tag, 'gen-pub-' + k, token, pubpriv, 'C_GenerateKeyPair', owner=s.S); o2 = Obj(tag2, 'gen-priv-' + k, token, True, 'C_GenerateKeyPair', owner=s.S); s.M[tag] = o1; s.M[tag2] = o2
+            o1 = Obj(tag, 'gen-pub-' + k, token, pubpriv, 'C_GenerateKeyPair', owner=sess); o2 = Obj(tag2, 'gen-priv-' + k, token, True, 'C_GenerateKeyPair', owner=sess); s.M[tag] = o1; s.M[tag2] = o2
             s.adopt(o1, r['hpub'], pub, 'C_GenerateKeyPair'); s.adopt(o2, r['hpriv'], priv, 'C_GenerateKeyPair')
     def pick(s, pred):
         c = [o for o in s.M.values() if o.alive and o.h is not None and pred(o)]
@@ -139,9 +141,10 @@ class History:
         if not src.private and rnd.random() < .4: tmpl.append(('CKA_PRIVATE', True)); private = True
         if 'CKA_ID' in src.exp and rnd.random() < .4: tmpl.append(('CKA_ID', s.gen.bstr()))
         s.trace.append(('copy', src.tag.decode(), src.cls, 'token' if src.token else 'session', '->', tag.decode(), token, private))
-        r = s.x().call('C_CopyObject', s=s.S, o=src.h, tmpl=s.T(tmpl)); s.part.count('calls_copy')
+        sess = s.S2 if (not token and rnd.random() < .6) else s.S
+        r = s.x().call('C_CopyObject', s=sess, o=src.h, tmpl=s.T(tmpl)); s.part.count('calls_copy')
         if r['rv'] != 0: s.part.count('refused_copy'); s.part.observe('refused C_CopyObject (no verdict)', {'class': src.cls, 'rv': r['rvname'], 'backend': s.backend}); return
-        o = Obj(tag, src.cls, token, private, 'C_CopyObject', owner=s.S); o.hidden = dict(src.hidden); o.kinds = dict(src.kinds); o.writer = {a: 'C_CopyObject' for a in src.exp}; s.M[tag] = o
+        o = Obj(tag, src.cls, token, private, 'C_CopyObject', owner=sess); o.hidden = dict(src.hidden); o.kinds = dict(src.kinds); o.writer = {a: 'C_CopyObject' for a in src.exp}; s.M[tag] = o
         s.adopt(o, r['h'], tmpl, 'C_CopyObject', base=src.exp, src_token=src.token)
     def op_set(s):
         rnd = s.rnd; o = s.pick(lambda o: o.token and o.cls in s.gen.table and o.exp.get('CKA_MODIFIABLE') == b'\x01')
@@ -170,7 +173,7 @@ class History:
             rv, v = s.x().getattrs(s.S, h, ['CKA_LABEL'], cap=512); tags.add((v.get('CKA_LABEL') or b'').split(b'|')[0])
         for o in mine:
             s.part.case(('session-object', o.cls, 'close-session', s.backend))
-            if o.tag in tags: s.V('C_CloseSession|session-object|outlives-its-session', 'a session object is still found after its session was closed', cls=o.cls)
+            if o.tag in tags: s.V(f'{o.origin}|session-object,close-owner|outlives-its-session', f'a session object made by {o.origin} is still found from another session after its own session was closed', cls=o.cls)
             o.alive = False; o.h = None
         s.S2 = s.x().call('C_OpenSession', slot=s.L.slot_of(s.label))['h']
     # ---- the oracles
@@ -267,6 +270,90 @@ def w_flags(job):
     except Died as e: part.observe('side:C17 library terminated the host', {'kind': e.kind(), 'fn': e.fn, 'where': e.where()}); part.inconc(f'executor died ({e.kind()} in {e.fn}) in the storage-flag job')
     except Hang: part.inconc('executor hang in the storage-flag job')
     except AssertionError as e: part.inconc(f'storage-flag job set-up failed: {e!r}')
+    finally: L.stop()
+    shutil.rmtree(d, ignore_errors=True); return part
+
+SESS_PATHS = ('C_CreateObject', 'C_CreateObject/private', 'C_CopyObject/token-source', 'C_CopyObject/session-source', 'C_GenerateKey', 'C_GenerateKeyPair/both', 'C_GenerateKeyPair/public-half', 'C_GenerateKeyPair/private-half',
+              'C_UnwrapKey', 'C_DeriveKey')
+def w_sessobj(job):
+    """session objects never outlive their session: they are made by EVERY path in sessions opened at various points of the history
+    (after object handles were issued and other sessions were opened/closed, so that PKCS#11 handles and internal session slots
+    differ); after C_CloseSession of the owner (others still open), C_CloseAllSessions, the last close and C_Finalize/C_Initialize a
+    search from every remaining and every new session must not return them (by unique tag), while token objects survive"""
+    part = Part(); b = job['backend']; d = os.path.join(job['scratch'], 'sess-%s-%s-%d' % (b, job['cfg'], job['seed'])); shutil.rmtree(d, ignore_errors=True); os.makedirs(d); L = Lib(job, d, b, job['cfg']); label = b'c05-sess'; n = [0]
+    rnd = random.Random(job['seed'])
+    def tags_seen(S):
+        rv, hs = L.x.findall(S); out = set()
+        for h in hs:
+            rv2, v = L.x.getattrs(S, h, ['CKA_LABEL'], cap=256); out.add((v.get('CKA_LABEL') or b'?').split(b'|')[0])
+        return out
+    try:
+        ck = L.ck; L.start(); L.init_token(label); x = L.x; T = x.T; slot = L.slot_of(label)
+        def tag(): n[0] += 1; return b's%04d' % n[0]
+        def make(S, S0, path, token_objs):
+            """-> [(tag, path)] of SESSION objects made in session S by `path` (S0: a long-lived session that holds the helper keys)"""
+            tg = tag(); lab = ('CKA_LABEL', tg + b'|' + os.urandom(6)); out = [(tg, path)]
+            sk = lambda priv: [('CKA_CLASS', ck.CKO_SECRET_KEY), ('CKA_KEY_TYPE', ck.CKK_GENERIC_SECRET), ('CKA_TOKEN', False), ('CKA_PRIVATE', priv), lab, ('CKA_VALUE', os.urandom(32)), ('CKA_SENSITIVE', False), ('CKA_EXTRACTABLE', True)]
+            if path == 'C_CreateObject': r = x.call('C_CreateObject', s=S, tmpl=T(sk(False)))
+            elif path == 'C_CreateObject/private': r = x.call('C_CreateObject', s=S, tmpl=T(sk(True)))
+            elif path == 'C_CopyObject/token-source': r = x.call('C_CopyObject', s=S, o=token_objs['pub-token-src'], tmpl=T([lab, ('CKA_TOKEN', False)]))
+            elif path == 'C_CopyObject/session-source':
+                src = x.call('C_CreateObject', s=S0, tmpl=T([('CKA_CLASS', ck.CKO_DATA), ('CKA_PRIVATE', False), ('CKA_LABEL', b'src-in-S0'), ('CKA_VALUE', b'v' * 20)]))['h']; r = x.call('C_CopyObject', s=S, o=src, tmpl=T([lab])); x.call('C_DestroyObject', s=S0, o=src)
+            elif path == 'C_GenerateKey': r = x.call('C_GenerateKey', s=S, mech=x.M('CKM_AES_KEY_GEN'), tmpl=T([('CKA_TOKEN', False), ('CKA_PRIVATE', False), lab, ('CKA_VALUE_LEN', 16)]))
+            elif path.startswith('C_GenerateKeyPair'):
+                tg2 = tag(); pub_tok = path.endswith('private-half'); prv_tok = path.endswith('public-half'); out = []
+                r = x.call('C_GenerateKeyPair', s=S, mech=x.M('CKM_EC_KEY_PAIR_GEN'), pub=T([('CKA_TOKEN', pub_tok), ('CKA_PRIVATE', False), ('CKA_EC_PARAMS', persist.P256), lab]), priv=T([('CKA_TOKEN', prv_tok), ('CKA_PRIVATE', False), ('CKA_LABEL', tg2 + b'|' + os.urandom(6))]))
+                if r['rv'] == 0:
+                    (token_objs['extra'] if pub_tok else out).append((tg, path)); (token_objs['extra'] if prv_tok else out).append((tg2, path))
+            elif path == 'C_UnwrapKey':
+                K = x.call('C_CreateObject', s=S0, tmpl=T([('CKA_CLASS', ck.CKO_SECRET_KEY), ('CKA_KEY_TYPE', ck.CKK_GENERIC_SECRET), ('CKA_VALUE', os.urandom(32)), ('CKA_EXTRACTABLE', True), ('CKA_SENSITIVE', False), ('CKA_PRIVATE', False), ('CKA_LABEL', b'k-in-S0')]))['h']
+                w = x.call('C_WrapKey', s=S0, mech=x.M('CKM_AES_KEY_WRAP'), wkey=token_objs['W'], key=K, buf=256); x.call('C_DestroyObject', s=S0, o=K)
+                r = x.call('C_UnwrapKey', s=S, mech=x.M('CKM_AES_KEY_WRAP'), ukey=token_objs['W'], wrapped=w['out'].get('data', ''), tmpl=T([('CKA_CLASS', ck.CKO_SECRET_KEY), ('CKA_KEY_TYPE', ck.CKK_GENERIC_SECRET), ('CKA_TOKEN', False), ('CKA_PRIVATE', False), lab]))
+            elif path == 'C_DeriveKey':
+                r = x.call('C_DeriveKey', s=S, mech=x.M('CKM_AES_ECB_ENCRYPT_DATA', kdstr=os.urandom(32).hex()), key=token_objs['W'], tmpl=T([('CKA_CLASS', ck.CKO_SECRET_KEY), ('CKA_KEY_TYPE', ck.CKK_GENERIC_SECRET), ('CKA_VALUE_LEN', 32), ('CKA_TOKEN', False), ('CKA_PRIVATE', False), lab]))
+            if r['rv'] != 0: part.inconc(f'session-object job: {path} refused ({r["rvname"]})'); return []
+            return out
+        for event in ('close-owner', 'close-owner', 'close-all', 'last-close', 'reinit'):
+            # sessions opened at various points: object handles are issued in between, an earlier session is closed so that its internal slot is reused
+            S0 = L.login(label); assert S0 is not None; tok = {'extra': []}
+            for i in range(rnd.randrange(1, 4)):
+                tg = tag(); r = x.call('C_CreateObject', s=S0, tmpl=T([('CKA_CLASS', ck.CKO_DATA), ('CKA_TOKEN', True), ('CKA_PRIVATE', i % 2 == 1), ('CKA_LABEL', tg + b'|tok'), ('CKA_VALUE', os.urandom(30))])); assert r['rv'] == 0, r; tok['extra'].append((tg, 'token'))
+            tg = tag(); r = x.call('C_CreateObject', s=S0, tmpl=T([('CKA_CLASS', ck.CKO_DATA), ('CKA_TOKEN', True), ('CKA_PRIVATE', False), ('CKA_LABEL', tg + b'|src'), ('CKA_VALUE', os.urandom(30))])); assert r['rv'] == 0, r; tok['pub-token-src'] = r['h']; tok['extra'].append((tg, 'token'))
+            tg = tag(); r = x.call('C_CreateObject', s=S0, tmpl=T([('CKA_CLASS', ck.CKO_SECRET_KEY), ('CKA_KEY_TYPE', ck.CKK_AES), ('CKA_TOKEN', True), ('CKA_PRIVATE', False), ('CKA_LABEL', tg + b'|W'), ('CKA_VALUE', os.urandom(32)), ('CKA_WRAP', True), ('CKA_UNWRAP', True), ('CKA_DERIVE', True)])); assert r['rv'] == 0, r
+            tok['W'] = r['h']; tok['extra'].append((tg, 'token'))
+            A = x.call('C_OpenSession', slot=slot)['h']; B = x.call('C_OpenSession', slot=slot, flags=4)['h']; x.call('C_CreateObject', s=A, tmpl=T([('CKA_CLASS', ck.CKO_DATA), ('CKA_LABEL', b'filler'), ('CKA_VALUE', b'f')]))
+            if rnd.random() < .7: x.call('C_CloseSession', s=A); A = None
+            owners = [x.call('C_OpenSession', slot=slot)['h']]                                   # opened after object handles were issued (and after a close: the internal slot is reused)
+            x.call('C_CreateObject', s=S0, tmpl=T([('CKA_CLASS', ck.CKO_DATA), ('CKA_LABEL', b'filler2'), ('CKA_VALUE', b'f')])); owners.append(x.call('C_OpenSession', slot=slot)['h'])
+            made = []
+            for i, path in enumerate(SESS_PATHS): made += make(owners[i % 2] if event != 'last-close' else owners[0], S0, path, tok)
+            before = tags_seen(S0)
+            lost = [(tg, path) for tg, path in made if tg not in before]; made = [m for m in made if m not in lost]
+            for tg, path in lost: part.observe('control failed: a fresh session object is not found by its tag before the event (db back-end: copies of token objects are broken, see C05|C_CopyObject|db|attributes-not-copied)', {'path': path, 'backend': b}, cap=4)
+            if len(lost) > 1: part.inconc(f'session-object job: {len(lost)} fresh session objects not visible before {event}: {[p for t_, p in lost]}')
+            # the event
+            if event == 'close-owner':
+                for o in owners: assert x.call('C_CloseSession', s=o)['rv'] == 0
+                observers = [('remaining', S0), ('remaining-ro', B), ('new', x.call('C_OpenSession', slot=slot)['h'])]
+            elif event == 'close-all':
+                assert x.call('C_CloseAllSessions', slot=slot)['rv'] == 0; observers = [('new', L.login(label)), ('new-2', x.call('C_OpenSession', slot=slot)['h'])]
+            elif event == 'last-close':
+                for h in [B, S0] + ([A] if A else []) + owners[1:]: x.call('C_CloseSession', s=h)
+                assert x.call('C_CloseSession', s=owners[0])['rv'] == 0; observers = [('new', L.login(label))]
+            else:
+                L.restart('reinit'); x = L.x; observers = [('new', L.login(label)), ('new-2', x.call('C_OpenSession', slot=L.slot_of(label))['h'])]; slot = L.slot_of(label)
+            for oname, S in observers:
+                assert S is not None; seen = tags_seen(S)
+                for tg, path in made:
+                    part.case(('session-object', path, event, oname, b))
+                    if tg in seen: part.violation(f'{path.split("/")[0]}|session-object,{event}|outlives-its-session', f'a session object made by {path} is still returned by a search from a {oname} session after {event}', dict(path=path, event=event, observer=oname, backend=b))
+                for tg, path in tok['extra']:
+                    part.case(('token-object', event, oname, b))
+                    if tg not in seen: part.violation(f'C_CreateObject|token-object,{event}|not-found-after-session-event', f'a token object is no longer found after {event}', dict(event=event, observer=oname, backend=b))
+            x.call('C_CloseAllSessions', slot=slot)
+    except Died as e: part.observe('side:C17 library terminated the host', {'kind': e.kind(), 'fn': e.fn, 'where': e.where(), 'job': 'sessobj'}); part.inconc(f'executor died ({e.kind()} in {e.fn}) in the session-object job')
+    except Hang: part.inconc('executor hang in the session-object job')
+    except AssertionError as e: part.inconc(f'session-object job could not continue: {e!r}')
     finally: L.stop()
     shutil.rmtree(d, ignore_errors=True); return part
 
@@ -461,7 +548,7 @@ def w_fault(job):
     return part
 
 # ---------------------------------------------------------------- driver
-def dispatch(job): return {'flags': w_flags, 'history': w_history, 'fixture': w_fixture, 'fault-prep': w_fault_prep, 'fault': w_fault}[job['kind']](job)
+def dispatch(job): return {'sessobj': w_sessobj, 'flags': w_flags, 'history': w_history, 'fixture': w_fixture, 'fault-prep': w_fault_prep, 'fault': w_fault}[job['kind']](job)
 def run(ctx):
     ctx.rule = ('one evaluation = one (token object, restart) comparison of EVERY attribute against the model, one (object, decoder) comparison, one session object checked for non-survival, '
                 'one golden-fixture object / PIN, or one faulted call; distinct = (class, attribute kind, size class, back-end, restart kind) of attributes that were set explicitly '
@@ -480,11 +567,14 @@ def run(ctx):
             jobs.append(dict(common, kind='fixture', fixture=fx, cfg=cfg, decode=(cfg == 'asan')))
     for cfg in cfgs:
         for b in ('file', 'db'): jobs.append(dict(common, kind='flags', backend=b, cfg=cfg, seed=ctx.seed * 100003 + 900000 + len(jobs)))
+    for cfg in cfgs:
+        for b in ('file', 'db'):
+            for rep in range(ctx.q(2, 6)): jobs.append(dict(common, kind='sessobj', backend=b, cfg=cfg, seed=ctx.seed * 100003 + 800000 + len(jobs)))
     fb = ('file', 'db'); calls = ['C_CreateObject', 'C_SetAttributeValue', 'C_DestroyObject', 'C_CopyObject']
     # db back-end: C_CopyObject is broken wholesale there (see the histories), so it has no effect a fault could lose
     for b in fb: jobs.append(dict(common, kind='fault-prep', backend=b, cfg='asan', calls=[c for c in calls if not (b == 'db' and c == 'C_CopyObject')]))
     # long jobs first
-    jobs.sort(key=lambda j: {'fault-prep': 0, 'fixture': 1, 'flags': 1, 'history': 2}[j['kind']])
+    jobs.sort(key=lambda j: {'fault-prep': 0, 'fixture': 1, 'flags': 1, 'sessobj': 1, 'history': 2}[j['kind']])
     for part in pmap(dispatch, jobs, ctx.nproc): ctx.merge(part)
     jobs = []
     for b in fb:
